@@ -240,7 +240,32 @@ func (vc *VC) SolveSel(sel func(*Obligation) bool, perCheckMs int, escalate bool
 		}
 	}
 	if nq > 12 {
-		vc.solveStandalone(sel, perCheckMs)
+		// cheap incremental pass first (most safety obligations need no quantifier reasoning), then
+		// every obligation still open gets its own solver run
+		quick := 250
+		sc := vc.scriptSel(-1, sel, quick, solverZ3New.Name)
+		r := runSolver(solverZ3New, sc, time.Duration(quick*n+5000)*time.Millisecond, quick)
+		if r.results[-1] == "unsat" {
+			vc.Vacuous = true
+		}
+		open := map[*Obligation]bool{}
+		for _, ob := range vc.obls {
+			if sel != nil && !sel(ob) {
+				continue
+			}
+			if ob.Cond == "true" {
+				ob.Result, ob.Solver = "unsat", "trivial"
+				continue
+			}
+			if r.results[ob.Index] == "unsat" {
+				ob.Result, ob.Solver, ob.TimeMs = "unsat", solverZ3New.Name, 1
+				continue
+			}
+			open[ob] = true
+		}
+		if len(open) > 0 {
+			vc.solveStandalone(func(ob *Obligation) bool { return open[ob] }, perCheckMs)
+		}
 		return
 	}
 	start := time.Now()
